@@ -326,9 +326,9 @@ func init() {
 }
 
 type c10Cell struct {
-	ti        int
-	method    string
-	populated bool
+	ti     int
+	method string
+	state  int // 0 empty, 1 populated, 2 bounded (SetMax) and full
 }
 
 var c10CellsCache []c10Cell
@@ -345,8 +345,12 @@ func c10Cells() []c10Cell {
 			names = append(names, rt.Method(i).Name)
 		}
 		sort.Strings(names)
+		_, hasMax := rt.MethodByName("SetMax")
 		for _, n := range names {
-			c10CellsCache = append(c10CellsCache, c10Cell{ti, n, false}, c10Cell{ti, n, true})
+			c10CellsCache = append(c10CellsCache, c10Cell{ti, n, 0}, c10Cell{ti, n, 1})
+			if hasMax {
+				c10CellsCache = append(c10CellsCache, c10Cell{ti, n, 2})
+			}
 		}
 	}
 	return c10CellsCache
@@ -371,16 +375,15 @@ func c10MethodsBody(rc *RunCtx) {
 	t := c10Types[c.ti]
 	d := &c10Data{Type: t.Name, ti: c.ti}
 	d.Label = t.Name + "." + c.method
-	if c.populated {
-		d.Label += "(populated)"
-	} else {
-		d.Label += "(empty)"
-	}
+	d.Label += []string{"(empty)", "(populated)", "(bounded,full)"}[c.state]
 	rc.Data = d
 	rc.Label = d.Label
 	obj := t.New(0)
-	if c.populated {
-		populate(obj, 3, 1)
+	if c.state >= 1 {
+		if c.state == 2 {
+			reflect.ValueOf(obj).MethodByName("SetMax").Call([]reflect.Value{reflect.ValueOf(3)})
+		}
+		populate(obj, 3, 11) // keys 11..13: the swept call (key 2) is a NEW key, so a bounded full instance must evict
 		if t.Name == "RequestDoubleQueue" {
 			invoke(obj, "Put2", 9, 9)
 		}
